@@ -236,6 +236,18 @@ def Host.init (toc : List Elem) (v2 : Bool) : Host :=
   { toc := toc, useV2 := v2, updV2 := false, initialized := false, isUpdated := false, values := [], queue := [], cur := none,
     lockHeld := false, pattern := none, pending := [], nameCbs := [], groupCbs := [], allCbs := [] }
 
+/-- The SAME `Crazyflie` / `Param` / `_ParamUpdater` objects after `close_link()` and the next `open_link()` reached `connected`
+with a device whose parameter table is `toc` (generation `v2`) - possibly ANOTHER device / firmware build: other indices, other
+types, other parameters.  `_disconnected`: `param_updater.close()` (request queue emptied, `wait_lock` released), `toc`, `values`
+reset; `_connection_requested`: `is_updated`, `toc`, `values`, `_initialized` reset; `refresh_toc`: `_useV2` recomputed, the new
+table downloaded.  Everything else is KEPT, as in the code (`Gen.C04.paramAttrs` / `updaterAttrs` are all the attributes there
+are): the update callbacks (registered by NAME, meant to stay), `_ParamUpdater._useV2` (recomputed by the first
+`request_param_update`, i.e. by the fetch at `connected`), `_lock_pattern`, a packet the updater thread had already taken, and the
+one-shot reply handlers of misc requests that were never answered. -/
+def Host.reconnect (h : Host) (toc : List Elem) (v2 : Bool) : Host :=
+  { h with toc := toc, useV2 := v2, initialized := false, isUpdated := false, values := [], queue := [], lockHeld := false,
+           connected := true }
+
 inductive MiscResult
   | dflt (v : Option Val)                           -- get_default_value: value or None
   | state (s : Option (Bool × Val × Option Val))    -- PersistentParamState(is_stored, default, stored) or None
